@@ -110,10 +110,10 @@ func gen(t *rapid.T) Script {
 			if nUp >= 6 {
 				continue
 			}
-			mode := rapid.SampledFrom([]string{"read-all", "read-all", "read-some", "read-none", "close-early", "close-then-hold", "close-then-hold"}).Draw(t, "mode")
+			mode := rapid.SampledFrom([]string{"read-all", "read-all", "read-some", "read-none", "close-early", "close-then-hold", "close-then-hold", "hold-then-read-all", "hold-then-read-all"}).Draw(t, "mode")
 			s.Ops = append(s.Ops, Op{Kind: "upload_open", Idx: nUp, Mode: mode, N: rapid.SampledFrom([]int{1, 100, 5000}).Draw(t, "some")})
 			upOpen[nUp] = true
-			if mode == "read-some" || mode == "read-none" || mode == "close-then-hold" {
+			if mode == "read-some" || mode == "read-none" || mode == "close-then-hold" || mode == "hold-then-read-all" {
 				upHeld[nUp] = true
 			}
 			nUp++
@@ -253,6 +253,17 @@ func exec(t *testing.T, s Script) (viol *vstat.Violation, classes map[string]boo
 					n, _ := io.ReadFull(r.Body, buf)
 					count(n)
 					<-u.release
+				case "hold-then-read-all":
+					// the body is read only after the client may long have ended the stream
+					<-u.release
+					buf := make([]byte, 8192)
+					for {
+						n, err := r.Body.Read(buf)
+						count(n)
+						if err != nil {
+							break
+						}
+					}
 				case "read-none":
 					<-u.release
 				case "close-early":
@@ -707,7 +718,7 @@ func indexOf(ds []*download, d *download) int {
 }
 
 func TestServer(t *testing.T) {
-	col.Mandatory("blocked-by-window", "reset-mid-body", "negative-stream-window", "overflow->GOAWAY(FLOW_CONTROL)", "over-window-upload->FLOW_CONTROL_ERROR", "padded-upload", "several-downloads-share-connection-window", "upload-handler:close-then-hold", "upload-handler:read-none",
+	col.Mandatory("blocked-by-window", "reset-mid-body", "negative-stream-window", "overflow->GOAWAY(FLOW_CONTROL)", "over-window-upload->FLOW_CONTROL_ERROR", "padded-upload", "several-downloads-share-connection-window", "upload-handler:close-then-hold", "upload-handler:read-none", "upload-handler:hold-then-read-all",
 		"client-stops-reading", "stream-error-on-upload", "data-on-stream-whose-reset-is-still-queued")
 	vstat.Run(t, vstat.Spec[Script]{Col: col, Quick: 1500, Thorough: 40000, Gen: gen,
 		Exec: func(s Script) *vstat.Violation {
